@@ -1,5 +1,6 @@
 import FiberModel.DriverUtil
 import FiberModel.C04.Known
+import FiberModel.C04.Refuse
 /-
 Driver for C04. Case fields (after the id):
   cfg(2 flags: caseSensitive, strict)  tree  ptable  reqs  |  stackMount stackGroup resMount resGroup
@@ -10,8 +11,13 @@ prefix `path` whose registrations all have the empty path — exactly what regis
 
 modelObs = model table of the mounted composition # model table of the group composition
 implObs  = Stack() of the mounted composition      # Stack() of the group composition
-spec     = both real compositions answer every request identically and their tables agree on what
-           the matcher reads (C04.specViolation), evaluated on the implementation's observation only.
+           (either one is `startup-panic` when that composition panicked while it was registered or
+           started; the model says so when its table would hold a Path whose independent plain
+           registration is refused — the `=!` entries of ptable, C04.refused)
+spec     = the two real compositions are refused together or start together (C04.startupViolation,
+           clause mount-equals-group), and when they start they answer every request identically and
+           their tables agree on what the matcher reads (C04.specViolation), evaluated on the
+           implementation's observation only.
 -/
 open B DriverUtil C04
 
@@ -99,20 +105,34 @@ def parseTree (s : String) : Except String (List Item) := do
   if !rest.isEmpty then throw "outside-domain: trailing tokens"
   pure items
 
-def parseTable (s : String) : Option (List (Bytes × List Bytes)) :=
+/-- `hexpath=hexname.hexname` (Params of an independent plain registration of the path) or
+`hexpath=!` (that registration is refused): `none` in the second component -/
+def parseTable (s : String) : Option (List (Bytes × Option (List Bytes))) :=
   if s == "-" then some [] else
   (s.splitOn ",").mapM fun e =>
     match e.splitOn "=" with
     | [k, v] => do
       let k ← fromHex k
+      if v == "!" then pure (k, none) else
       let v ← if v == "" then some [] else (v.splitOn ".").mapM fun x => fromHex x
-      pure (k, v)
+      pure (k, some v)
     | _ => none
 
-def lookupParams (tbl : List (Bytes × List Bytes)) (p : Bytes) : List Bytes :=
+def lookupParams (tbl : List (Bytes × Option (List Bytes))) (p : Bytes) : List Bytes :=
   match tbl.find? (·.1 == p) with
-  | some e => e.2
+  | some (_, some ps) => ps
+  | some (_, none) => [[33]]    -- "!": refused path; the composition holding it is `startup-panic`
   | none => [[63, 63]]          -- "??": a path the harness never saw — shows up as M=DIFF
+
+def lookupRefused (tbl : List (Bytes × Option (List Bytes))) (p : Bytes) : Bool :=
+  match tbl.find? (·.1 == p) with
+  | some (_, none) => true
+  | _ => false
+
+def startupPanic : String := "startup-panic"
+
+def maxRowParams (t : List (List Row)) : Nat :=
+  t.foldl (fun a rows => rows.foldl (fun a r => max a r.params.length) a) 0
 
 def renderStack (l : List Route) : String :=
   if l.isEmpty then "-" else
@@ -166,27 +186,41 @@ def handleCase (f : List String) : Except String Verdict := do
     let items ← parseTree tree
     let some tbl := parseTable ptable | throw "outside-domain: ptable"
     let po := lookupParams tbl
+    let rf := lookupRefused tbl
     let implObs := stackM ++ "#" ++ stackG
     let fm := flatten cfg po items
     let fg := flattenSpec cfg po items
-    let modelObs := renderTable fm ++ "#" ++ renderTable fg
+    let modelObs := (if refused rf fm then startupPanic else renderTable fm) ++ "#" ++
+      (if refused rf fg then startupPanic else renderTable fg)
+    let refM := stackM == startupPanic
+    let refG := stackG == startupPanic
     let rm := if resM == "-" then [] else resM.splitOn ","
     let rg := if resG == "-" then [] else resG.splitOn ","
     let nreq := if reqs == "-" then 0 else (reqs.splitOn ",").length
     if rm.length != nreq || rg.length != nreq then throw "outside-domain: answers do not line up with requests"
+    if (refM && rm.any (· != startupPanic)) || (refG && rg.any (· != startupPanic)) then
+      throw "outside-domain: a refused composition answers nothing"
+    let tmO := if refM then some [] else parseStacks stackM
+    let tgO := if refG then some [] else parseStacks stackG
     let spec : Option String :=
-      if stackM == "panic" then some "startup: the mounted composition panics while the group composition serves"
-      else match parseStacks stackM, parseStacks stackG with
-      | some tm, some tg => specViolation cfg tm tg rm rg
-      | _, _ => some "unparsable-observation"
+      match startupViolation refM refG with
+      | some v => some v
+      | none =>
+        if refM then none        -- both refused: equal outcomes
+        else match tmO, tgO with
+        | some tm, some tg => specViolation cfg tm tg rm rg
+        | _, _ => some "unparsable-observation"
+    let maxP := max (maxRowParams (tmO.getD [])) (maxRowParams (tgO.getD []))
     -- the inputs of the repaired finding F5 (formerly known finding K1): tagged, no longer excused
     let f5 := Known.F5region cfg items
     let known : Option String := none
     let mounted := hasMount items
-    let hit := rm.any fun r => !(r.startsWith "|")
+    let hit := !refM && rm.any fun r => !(r.startsWith "|")
     let tags := (if mounted then ["mount"] else ["no-mount"]) ++ (mountTags 0 false items).eraseDups ++
       (if cfg.strict then ["strict"] else []) ++ (if cfg.caseSensitive then ["case-sensitive"] else []) ++
-      (if f5 then ["f5-region"] else []) ++ (if hit then ["served"] else ["nothing-served"]) ++
+      (if f5 then ["f5-region"] else []) ++
+      (if refM && refG then ["startup-refused-both"] else if refM || refG then ["startup-refused-one-sided"] else []) ++
+      (if !refM && !refG && maxP ≥ 28 then [s!"params-served-{maxP}"] else []) ++ (if hit then ["served"] else ["nothing-served"]) ++
       (if mounted && hit then ["nt"] else [])
     pure { id := id, modelObs := modelObs, implObs := implObs, spec := spec, known := known, tags := tags }
   | _ => throw s!"outside-domain: expected 9 fields, got {f.length}"
